@@ -25,7 +25,7 @@ RULE = (
     "marker is left behind, and no sbatch follows (also not from commands issued afterwards); non-trivial = >= 1 recovery "
     "round or >= 3 submitter rounds; distinct by hash of the case"
 )
-RULE += " Later additions (DESIGN.md 9): " + 'one operator command bound to the end of a batch and held back between two lock holds; a fifth of the cases at file-operation granularity.'
+RULE += " Later additions (DESIGN.md 9): " + 'one operator command bound to the end of a batch and held back between two lock holds; a fifth of the cases at file-operation granularity; a third continue with resubmit-jobs after completion: the rerun must make progress in every recovery round and complete again without missing jobs.'
 ASSUMPTIONS = C.WORLD_ASSUMPTIONS + [
     "liveness is checked as bounded progress per recovery round, not as unbounded 'eventually'",
     "fault-free runs only (no killed process, no failing command)",
@@ -44,6 +44,7 @@ def strategy(tier):
         "file_yields": st.sampled_from([False, False, False, False, True]),
         # operator commands bound to the end of a batch, held back between two lock holds (common.late_ops)
         "late": C.late_ops(),
+        "rerun": st.sampled_from([None, None, None, None, {"successful": False}, {"successful": True}]),
     })
 
 
@@ -78,42 +79,47 @@ def run_case(case):
         n_jobs = len(scn["jobs"])
 
         # drive with recovery, checking (a)
-        outcome = None
-        while True:
-            if not w.run():
-                outcome = "budget"
-                break
-            if sim.is_complete():
-                outcome = "complete"
-                break
-            if w.live_threads():
-                outcome = "stuck:live-threads"
-                break
-            if sim.cluster_config() is None:
-                outcome = "stuck:no-cluster-config"
-                break
-            if sim.recovery_rounds >= n_jobs + 3:
-                v.append(C.viol("C05:not-complete-after-bounded-recovery",
-                                f"submission still incomplete after {sim.recovery_rounds} recovery rounds"))
-                outcome = "stuck:rounds"
-                break
-            w.user_events.clear()
-            sim.recovery_rounds += 1
-            before = len(w.events("sbatch"))
-            w.note("recovery", n=sim.recovery_rounds, how=case["recover"])
-            vt = sim.user_cmd(_cmd(sim, case["recover"]), name=f"recover{sim.recovery_rounds}")
-            if not w.run():
-                outcome = "budget"
-                break
-            after = len(w.events("sbatch"))
-            if after == before and not sim.is_complete():
-                excs = sim.exceptions()
-                v.append(C.viol("C05:recovery-round-no-progress",
-                                f"recovery round {sim.recovery_rounds} ({case['recover']}) started with no live process and "
-                                f"no queued/running batch; it neither submitted a batch nor completed the submission; "
-                                f"exit={vt.exit} exceptions={excs[-2:]}"))
-                outcome = "stuck:no-progress"
-                break
+        def drive_checked(tag=""):
+            outcome = None
+            while True:
+                if not w.run():
+                    outcome = "budget"
+                    break
+                if sim.is_complete():
+                    outcome = "complete"
+                    break
+                if w.live_threads():
+                    outcome = "stuck:live-threads"
+                    break
+                if sim.cluster_config() is None:
+                    outcome = "stuck:no-cluster-config"
+                    break
+                if sim.recovery_rounds >= n_jobs + 3:
+                    v.append(C.viol("C05:not-complete-after-bounded-recovery",
+                                    f"{tag}submission still incomplete after {sim.recovery_rounds} recovery rounds"))
+                    outcome = "stuck:rounds"
+                    break
+                w.user_events.clear()
+                sim.recovery_rounds += 1
+                before = len(w.events("sbatch"))
+                w.note("recovery", n=sim.recovery_rounds, how=case["recover"])
+                vt = sim.user_cmd(_cmd(sim, case["recover"]), name=f"recover{sim.recovery_rounds}")
+                if not w.run():
+                    outcome = "budget"
+                    break
+                after = len(w.events("sbatch"))
+                if after == before and not sim.is_complete():
+                    excs = sim.exceptions()
+                    v.append(C.viol("C05:recovery-round-no-progress",
+                                    f"{tag}recovery round {sim.recovery_rounds} ({case['recover']}) started with no live process and "
+                                    f"no queued/running batch; it neither submitted a batch nor completed the submission; "
+                                    f"exit={vt.exit} exceptions={excs[-2:]}"))
+                    outcome = "stuck:no-progress"
+                    break
+
+            return outcome
+
+        outcome = drive_checked()
 
         res = C.base_result(case, sim, outcome if not outcome.startswith("stuck:no-progress") and outcome != "stuck:rounds" else "complete")
         res["violations"] = v
@@ -205,6 +211,30 @@ def run_case(case):
                 v.append(C.viol("C05:completion-flag-cleared", "a command issued after completion cleared is_complete"))
             if case["post"]:
                 res["classes"].append("post_completion_commands")
+
+        # a fifth of the cases go on with resubmit-jobs (failed/canceled jobs, optionally the successful ones): the rerun is a
+        # fault-free run too -- every recovery round makes progress and the submission completes again
+        if outcome == "complete" and not v and case.get("rerun") and scn["mode"] == "hpc" and not res.get("inconclusive"):
+            w.user_events.clear()
+            w.cond_events.clear()
+            sim.user_cmd(["resubmit-jobs", sim.out, "--failed", "--missing",
+                          "--successful" if case["rerun"]["successful"] else "--no-successful"], name="resubmit")
+            w.note("user", cmd="resubmit")
+            sim.recovery_rounds = 0
+            n_sb = len(w.events("sbatch"))
+            out2 = drive_checked("after resubmit-jobs: ")
+            if len(w.events("sbatch")) > n_sb:
+                res["classes"].append("rerun_after_resubmit")
+                if out2 in ("stuck:live-threads", "stuck:no-cluster-config"):
+                    v.append(C.viol("C05:rerun-does-not-complete", f"after resubmit-jobs the fault-free rerun ends {out2}; exceptions="
+                                    f"{sim.exceptions()[-2:]}"))
+                elif out2 == "budget":
+                    res["inconclusive"] = "step-budget"
+                elif out2 == "complete":
+                    rj = H.read_json(os.path.join(sim.out, "results.json")) or {}
+                    if rj.get("missing_jobs"):
+                        v.append(C.viol("C05:complete-without-all-results|rerun", f"after resubmit-jobs the fault-free rerun completed "
+                                        f"with missing jobs {rj.get('missing_jobs')}"))
 
         if case.get("file_yields"):
             res["classes"].append("file_granularity")
